@@ -12,6 +12,9 @@ GNext == \/ \E n \in NN, a \in AA :
               \/ GStep("chgaddr", n, a, ChgAddr(n,a))
               \/ GStep("chgname", n, a, ChgName(a,n))
          \/ GStep("clear", "", "", Clear)
+         \/ \E p1 \in NN \X AA, p2 \in NN \X AA :
+              \/ (Load(<<p1>>) /\ pre' = Abs /\ act' = [op |-> "load", n |-> "", a |-> "", pairs |-> <<p1>>])
+              \/ (Load(<<p1, p2>>) /\ pre' = Abs /\ act' = [op |-> "load", n |-> "", a |-> "", pairs |-> <<p1, p2>>])
 GSpec == GInit /\ [][GNext]_gvars
 Emit == PrintT(<<"TR", ToJson([pre |-> pre, act |-> act, res |-> res, post |-> Abs])>>)
 ====
